@@ -85,7 +85,7 @@ SeedSeq  == SetToSeq({Trace[i].seed : i \in {j \in 1..N : Trace[j].k = "Run"}})
 SeedPubs == FoldLeft(LAMBDA acc, sd : Append(acc, BytesToBits(EdPubFromSeed(HexToBytes(sd)))), <<>>, SeedSeq)
 PubOfSeed(sd) == SeedPubs[CHOOSE i \in 1..Len(SeedSeq) : SeedSeq[i] = sd]
 
-SendEvent(e, x) ==
+SendEvent(e, oa, x) ==
   LET P == Parse(HexToBytes(x.boc)) IN
   IF ~P.ok \/ Len(P.roots) # 1 THEN [k |-> "Send", srcNone |-> FALSE, destOK |-> FALSE, seq |-> "", init |-> FALSE, initOK |-> FALSE, r |-> x.r, why |-> "not-a-bag"]
   ELSE
@@ -97,7 +97,7 @@ SendEvent(e, x) ==
   IN IF ~M.ok THEN [k |-> "Send", srcNone |-> M.why # "src", destOK |-> FALSE, seq |-> "", init |-> FALSE, initOK |-> FALSE, r |-> x.r, why |-> M.why]
      ELSE LET I == InfoTable(T) IN
           [k |-> "Send", srcNone |-> TRUE,
-           destOK |-> M.wc = S(e.wc, 8) /\ M.addr = BytesToBits(AddressHash(e.ver, pub, e.wc, sub, net)),
+           destOK |-> M.wc = S(e.wc, 8) /\ BytesToHex(BitsToBytes(M.addr)) = oa,
            seq  |-> BodySeqno(e.ver, M.body),
            init |-> M.hasInit,
            initOK |-> M.hasInit /\ M.init.plain
@@ -107,24 +107,28 @@ SendEvent(e, x) ==
 
 \* one recorded step -> the specification's events (Build is what the message shows the wallet decided;
 \* Deadline is inserted when the clock has passed the window)
-Feed(e, p, s, x) ==
+OwnAddr(e) == BytesToHex(AddressHash(e.ver, PubOfSeed(e.seed), e.wc, DefaultSubBits(e.ver, e.wc), S(MainnetId, 32)))
+Feed(e, oa, p, s, x) ==
   LET s1 == IF x.k \in {"Poll", "Return"} /\ s.pc = "sent" /\ p.confirm /\ ~s.late /\ ~s.adv /\ x.us >= DeadlineUs(e)
             THEN Step(p, s, [k |-> "Deadline"]) ELSE s
-  IN CASE x.k = "GetState" -> Step(p, s1, [k |-> "GetState", st |-> x.st, n |-> x.n])
-       [] x.k = "Send" -> LET se == SendEvent(e, x) IN
+      own == x.awc = e.wc /\ x.for = oa
+  IN CASE x.k = "GetState" -> Step(p, s1, [k |-> "GetState", st |-> x.st, n |-> x.n, own |-> own])
+       [] x.k = "Send" -> LET se == SendEvent(e, oa, x) IN
                           Step(p, Step(p, s1, [k |-> "Build", seq |-> se.seq, init |-> se.init]), se)
-       [] x.k = "Poll" -> Step(p, s1, [k |-> "Poll", r |-> x.r, v |-> x.v])
+       [] x.k = "Poll" -> Step(p, s1, [k |-> "Poll", r |-> x.r, v |-> x.v, own |-> own])
        [] x.k = "Return" ->
             \* an error may not come late either: the call has to give up at the deadline (one more poll interval and generous
             \* scheduling slack allowed)
             IF x.res = "err" /\ s1.pc = "sent" /\ p.confirm /\ x.us > 2 * e.W * 1000 + 2000000 THEN Bad(s1, "Return:long-after-deadline")
             ELSE Step(p, s1, [k |-> "Return", res |-> x.res])
        [] OTHER -> Bad(s1, x.k)                          \* Panic, Timeout
-RunFinal(e) == FoldLeft(LAMBDA s, x : Feed(e, RunP(e), s, x), S0, e.steps)
+RunFinal(e, oa) == FoldLeft(LAMBDA s, x : Feed(e, oa, RunP(e), s, x), S0, e.steps)
 JudgeRun(e) ==
   IF e.setup # "" THEN Note("run", "setup") /\ FALSE
-  ELSE LET f == RunFinal(e) IN
-       IF f.pc = "done" THEN TRUE
+  ELSE LET oa == OwnAddr(e)
+           f  == RunFinal(e, oa) IN
+       IF e.addr # oa \/ e.awc # e.wc THEN Note("run", "GetAddress") /\ FALSE     \* the wallet object itself reports another address
+       ELSE IF f.pc = "done" THEN TRUE
        ELSE Note("run", IF f.pc = "bad" THEN f.why ELSE "no-return") /\ FALSE
 
 Judge(e) == CASE e.k = "Code"        -> JudgeCode(e)
